@@ -386,6 +386,14 @@ fn is_valid_package_type(package_type: &str) -> bool {
             .all(|c| c.is_ascii_alphanumeric() || ALLOWED_SPECIAL_CHARS.contains(&c))
 }
 
+/// Check whether `c` is changed by `char::to_lowercase`.
+///
+/// This is not the same as `char::is_uppercase`: titlecase letters such as 'ǅ'
+/// are not uppercase but still have a distinct lowercase form.
+fn changes_when_lowercased(c: char) -> bool {
+    !c.to_lowercase().eq([c])
+}
+
 /// Try to convert a `SmallString` to lowercase without allocating.
 fn lowercase_in_place(s: &mut SmallString) {
     enum State {
@@ -395,7 +403,7 @@ fn lowercase_in_place(s: &mut SmallString) {
     }
     let mut state = State::Lower;
     for c in s.chars() {
-        if c.is_uppercase() {
+        if changes_when_lowercased(c) {
             if c.is_ascii() {
                 state = State::MixedAscii;
             } else {
@@ -424,7 +432,7 @@ fn copy_as_lowercase(s: &str) -> SmallString {
     }
     let mut state = State::Lower;
     for c in s.chars() {
-        if c.is_uppercase() {
+        if changes_when_lowercased(c) {
             if c.is_ascii() {
                 state = State::MixedAscii;
             } else {
